@@ -694,12 +694,20 @@ Definition after_record (x : sctx) (r : arec) : sctx :=
 
 Definition d_origin_s : bytes := [36; 79; 82; 73; 71; 73; 78].          (* $ORIGIN *)
 Definition d_ttl_s : bytes := [36; 84; 84; 76].                          (* $TTL *)
+Definition d_include_s : bytes := [36; 73; 78; 67; 76; 85; 68; 69].      (* $INCLUDE *)
+
+Definition quoted (sc : schoice) : bool := match sc with SQuoted _ => true | SUnquoted _ => false end.
 
 Inductive aline :=
 | LRecord (rc : rchoice) (r : arec)
 | LBlank (e : eolc)                                                     (* blanks, parentheses, a comment *)
 | LOrigin (lows : list bool) (s : sep) (nc : nchoice) (ls : list label) (e : eolc)
-| LTtl (lows : list bool) (s : sep) (ic : ichoice) (raw : N) (e : eolc).
+| LTtl (lows : list bool) (s : sep) (ic : ichoice) (raw : N) (e : eolc)
+(* $INCLUDE <file-name> [<domain-name>]: reported to the caller, who reads the file *)
+| LInclude (lows : list bool) (s : sep) (pc : schoice) (path : bytes) (org : option (sep * nchoice * list label)) (e : eolc).
+
+Definition render_org (org : option (sep * nchoice * list label)) : bytes :=
+  match org with Some (s2, nc, ls) => render_sep s2 ++ render_name nc ls | None => [] end.
 
 Definition render_line (l : aline) : bytes :=
   match l with
@@ -707,10 +715,23 @@ Definition render_line (l : aline) : bytes :=
   | LBlank e => render_eol e
   | LOrigin lows s nc ls e => apply_case lows d_origin_s ++ render_sep s ++ render_name nc ls ++ render_eol e
   | LTtl lows s ic raw e => apply_case lows d_ttl_s ++ render_sep s ++ render_uint ic raw ++ render_eol e
+  | LInclude lows s pc path org e =>
+    apply_case lows d_include_s ++ render_sep s ++ render_string pc path ++ render_org org ++ render_eol e
   end.
 
 Definition line_end (l : aline) : eolc :=
-  match l with LRecord rc _ => rc_end rc | LBlank e => e | LOrigin _ _ _ _ e => e | LTtl _ _ _ _ e => e end.
+  match l with
+  | LRecord rc _ => rc_end rc | LBlank e => e | LOrigin _ _ _ _ e => e | LTtl _ _ _ _ e => e
+  | LInclude _ _ _ _ _ e => e
+  end.
+
+(* a file name: like a <character-string> but of up to 65536 octets (the parser's limit) *)
+Definition path_ok (pc : schoice) (path : bytes) : bool :=
+  (N.of_nat (length path) <=? 65536) &&
+  match pc with
+  | SQuoted es => octets_ok KQuoted es path
+  | SUnquoted es => octets_ok KUnquoted es path && negb (beq path []) && negb (head_is 34 (render_octets es path))
+  end.
 
 Definition line_ok (x : sctx) (l : aline) : bool :=
   match l with
@@ -726,6 +747,20 @@ Definition line_ok (x : sctx) (l : aline) : bool :=
     | Some p => uint_ok 4294967295 ic raw && eol_ok p e
     | None => false
     end
+  | LInclude _ s pc path org e =>
+    match sep_ok false false s with
+    | Some p =>
+      path_ok pc path &&
+      match org with
+      | None => eol_ok p e
+      | Some (s2, nc, ls) =>
+        match sep_ok p (quoted pc) s2 with
+        | Some p2 => name_ok false false (x_origin x) nc ls && eol_ok p2 e
+        | None => false
+        end
+      end
+    | None => false
+    end
   end.
 
 Definition after_line (x : sctx) (l : aline) : sctx :=
@@ -734,6 +769,7 @@ Definition after_line (x : sctx) (l : aline) : sctx :=
   | LBlank _ => x
   | LOrigin _ _ _ ls _ => mkSctx (Some ls) (x_owner x) (x_ttl x) (x_class x) (x_default x)
   | LTtl _ _ _ raw _ => mkSctx (x_origin x) (x_owner x) (x_ttl x) (x_class x) (Some (ttl_denote raw))
+  | LInclude _ _ _ _ _ _ => x
   end.
 
 Fixpoint render_file (ls : list aline) : bytes :=
@@ -751,15 +787,24 @@ Fixpoint file_ok (x : sctx) (ls : list aline) : bool :=
     && file_ok (after_line x l) ls'
   end.
 
-(* what the file means: its records in order, each with the number of the line it starts on
-   (1 + the LF octets before it) *)
-Fixpoint denote (line : N) (ls : list aline) : list (N * arec) :=
+(* what the parser reports: a record, or an $INCLUDE directive with the origin the included file is to be
+   read with (the one given, else the current one) *)
+Inductive aitem := IRecord (r : arec) | IInclude (path : bytes) (origin : option (list label)).
+
+(* what the file means: its records and $INCLUDE directives in order, each with the number of the line it
+   starts on (1 + the LF octets before it) *)
+Fixpoint denote (x : sctx) (line : N) (ls : list aline) : list (N * aitem) :=
   match ls with
   | [] => []
   | l :: ls' =>
-    let rest := denote (line + count_nl (render_line l)) ls' in
-    match l with LRecord _ r => (line, r) :: rest | _ => rest end
+    let rest := denote (after_line x l) (line + count_nl (render_line l)) ls' in
+    match l with
+    | LRecord _ r => (line, IRecord r) :: rest
+    | LInclude _ _ _ path org _ =>
+      (line, IInclude path (match org with Some (_, _, ls) => Some ls | None => x_origin x end)) :: rest
+    | _ => rest
+    end
   end.
 
 Definition render (ls : list aline) : bytes := render_file ls.
-Definition number_lines (ls : list aline) : list (N * arec) := denote 1 ls.
+Definition number_lines (ls : list aline) : list (N * aitem) := denote sctx0 1 ls.
